@@ -33,7 +33,11 @@ Notation CD := CDel.
 Notation IO := LIo.
 Notation AK := LAck.
 Notation SW := SWrite.
+Notation SWF := SWriteFF.
 Notation SF := SFlush.
+Notation HD := IHdr.
+Notation EN_ := IEnt.
+Notation TN := ITorn.
 Notation SD := SShutdown.
 Notation ST := STruncate.
 Notation TR := LTrunc.
@@ -51,6 +55,13 @@ Record inc := I {
 Record case := K {
   k_max_file_size : N;
   k_max_entries : N;
+  (* WAL files already in the store when the first incarnation starts (leftovers: an empty
+     file, a torn header, ...): sequence number and items, everything on disk *)
+  k_init : list (N * list item);
+  (* writes whose write_durable gave up after its 5 s timeout: the actor still resolves
+     their ack later, but nobody listens - their acks are left out of both logs and they do
+     not count as acked *)
+  k_silent : list N;
   k_incs : list inc;
   k_samples : list (N * list N * list N)   (* crash instants of the last incarnation *)
 }.
@@ -99,34 +110,42 @@ Definition keep_of (l : list (N * N)) (s : N) : nat :=
 Definition run_inc (cfg : config) (st : state) (i : inc) (io : list outcome) : state :=
   fold_left (step cfg) (i_sched i) (restart (keep_of (i_keep i)) st io).
 
-Definition inc_ok (cfg : config) (st : state) (i : inc) (last : bool) : bool :=
+Definition heard (silent : list N) (x : log_item) : bool :=
+  match x with
+  | LAck w _ => negb (existsb (N.eqb w) silent)
+  | _ => true
+  end.
+
+Definition inc_ok (cfg : config) (silent : list N) (st : state) (i : inc) (last : bool) : bool :=
   let a := run_inc cfg st i (outcomes_of (i_log i)) in
-  list_eqb log_item_eqb (rev (s_log a)) (i_log i) &&
+  list_eqb log_item_eqb (filter (heard silent) (rev (s_log a))) (i_log i) &&
   match s_io a with [] => true | _ => false end &&
   negb (s_over a) &&
   negb (s_panic a) &&
   (negb last || negb (s_halt a)).
 
-Definition samples_ok (cfg : config) (st : state) (i : inc) (samples : list (N * list N * list N)) : bool :=
+Definition samples_ok (cfg : config) (silent : list N) (st : state) (i : inc) (samples : list (N * list N * list N)) : bool :=
   forallb (fun s =>
     let '(j, rec, acked) := s in
     let a := run_inc cfg st i (firstn (N.to_nat j) (outcomes_of (i_log i))) in
     list_eqb N.eqb (recovered_after_crash a) rec &&
-    list_eqb N.eqb (sortN (acked_ok a)) acked) samples.
+    list_eqb N.eqb (sortN (filter (fun w => negb (existsb (N.eqb w) silent)) (acked_ok a))) acked) samples.
 
-Fixpoint check_incs (cfg : config) (st : state) (incs : list inc) (samples : list (N * list N * list N)) : bool :=
+Fixpoint check_incs (cfg : config) (silent : list N) (st : state) (incs : list inc) (samples : list (N * list N * list N)) : bool :=
   match incs with
   | [] => false
   | i :: r =>
       match r with
-      | [] => inc_ok cfg st i true && samples_ok cfg st i samples
-      | _ => inc_ok cfg st i false &&
-             check_incs cfg (run_inc cfg st i (outcomes_of (i_log i))) r samples
+      | [] => inc_ok cfg silent st i true && samples_ok cfg silent st i samples
+      | _ => inc_ok cfg silent st i false &&
+             check_incs cfg silent (run_inc cfg st i (outcomes_of (i_log i))) r samples
       end
   end.
 
 Definition check_with (v : variant) (k : case) : bool :=
-  check_incs (Config v (k_max_file_size k) (k_max_entries k)) (init []) (k_incs k) (k_samples k).
+  check_incs (Config v (k_max_file_size k) (k_max_entries k)) (k_silent k)
+    (init_from (map (fun p => (fst p, File (snd p) (List.length (snd p)))) (k_init k)) [] [] [] [])
+    (k_incs k) (k_samples k).
 
 (* /repo is checked against the repaired rotator. *)
 Definition check : case -> bool := check_with Repaired.
